@@ -104,3 +104,20 @@ package index
 //gvc:  loop 2 invariant stages: 0 <= it2 && it2 <= 3
 //gvc:  sink ReadFrom requires slot: s == it2 + 1
 //gvc:end
+
+// Cached-tree records (git cache-tree.c read_one): path NUL, entry_count SP
+// subtree_count LF, then an object name unless entry_count is negative (an
+// invalidated record). A record is dropped only when its entry count is
+// negative, and then no object name is consumed; every other record
+// (entry_count 0 included: the empty tree) is returned with its counts after
+// exactly one object name was read.
+//gvc:func (*treeExtensionDecoder).readEntry
+//gvc:  props C12 C53
+//gvc:  theory int
+//gvc:  opt coarse
+//gvc:  opt frame args
+//gvc:  results entry err
+//gvc:  requires nn: d.r != nil && d.h != nil
+//gvc:  ensures dropped: err == nil && entry == nil ==> i < 0 && calls("ReadFrom") == 0
+//gvc:  ensures kept: err == nil && i >= 0 ==> entry != nil && entry.Entries == i && entry.Trees == subtrees && calls("ReadFrom") == 1
+//gvc:end
